@@ -173,26 +173,26 @@ func checkDefs() map[string]CheckDef {
 		ID: "C20",
 		Obligations: []Obligation{
 			{Pkg: "internal/verifh/c20", Harness: "VerifC20LedgerIDs", Quick: map[string]int{"maxAssets": 4}, TV: 20},
-			{Pkg: "internal/verifh/c20", Harness: "VerifC20Dispatch", Sched: true, Quick: map[string]int{"P": 0, "ledgers": 3, "maxAssets": 3, "plainAsset": 1}, Thor: map[string]int{"ledgers": 4, "maxAssets": 4}, TV: 30},
+			{Pkg: "internal/verifh/c20", Harness: "VerifC20Dispatch", Sched: true, Quick: map[string]int{"P": 0, "ledgers": 3, "maxAssets": 3, "plainAsset": 1}, Thor: map[string]int{"maxAssets": 4}, TV: 30},
 		},
 		Assumptions: append(append([]string{}, commonAssumptions...),
 			"goroutines are run by the engine's cooperative scheduler: every order in which the concurrent sub-calls start, complete and deliver their result is explored (preemption bound P=0: a goroutine is switched away from only when it blocks or ends; the stubs take a mutex at entry and exit, so entry/exit interleavings are explored)",
 			"context.WithTimeout is the plain-Go context model of the harness runtime on the engine's virtual clock; the funder's timeout never fires before the calls return",
 			"reference: DESIGN.md Appendix A.7"),
-		BoundsText: "asset lists of length 0..3 (4 thorough) over 3 (4) ledgers given as (backend, ledger) pairs, repetitions in any order, optionally a non-multi-ledger asset; every subset of registered ledgers and of failing ledgers; methods Register, Progress, Withdraw, Fund (with every egoistic index 0..3 or none); all completion orders",
-		Outside:    []string{"preemptions inside a stub call (P>0)", "more than 4 ledgers", "funder timeouts"},
+		BoundsText: "asset lists of length 0..3 (4 thorough) over 3 ledgers given as (backend, ledger) pairs, repetitions in any order, optionally a non-multi-ledger asset; every subset of registered ledgers and of failing ledgers; methods Register, Progress, Withdraw, Fund (with every egoistic index 0..3 or none); all completion orders",
+		Outside:    []string{"preemptions inside a stub call (P>0)", "more than 3 ledgers", "funder timeouts"},
 	})
 	add(CheckDef{
 		ID: "C18",
 		Obligations: []Obligation{
 			{Pkg: "internal/verifh/c18", Harness: "VerifC18Sequential", Sched: true, Quick: map[string]int{"P": 0, "h": 4}, Thor: map[string]int{"h": 5}, TV: 30},
-			{Pkg: "internal/verifh/c18", Harness: "VerifC18Concurrent", Sched: true, Quick: map[string]int{"P": 0, "T": 2, "k": 2, "race": 1}, Thor: map[string]int{"T": 3, "k": 2}, TV: 30},
+			{Pkg: "internal/verifh/c18", Harness: "VerifC18Concurrent", Sched: true, Quick: map[string]int{"P": 0, "T": 2, "k": 2, "race": 1}, Thor: map[string]int{"T": 2, "k": 3}, TV: 30},
 		},
 		Assumptions: append(append([]string{}, commonAssumptions...),
 			"predicates are harness closures whose verdict on each envelope is a symbolic boolean; consumers are recording stubs with OnClose support (poly-go Closer)",
 			"reference model: DESIGN.md Appendix A.6; a consumer that was closed but whose asynchronous removal may still be pending may or may not receive an envelope put in that window (both allowed); each envelope is put at most once per program; duplicate subscriptions (a documented panic) are not drawn",
 			"concurrency: the engine's cooperative scheduler explores every order of the operations and of the relay's own goroutines at blocking points (preemption bound 0); in addition every explored execution is checked for data races with a vector-clock happens-before detector (goroutine creation, sync.Mutex/RWMutex, channels, WaitGroup, Once, atomics, timers); a race is reported as a violation and confirmed natively by `go test -race`"),
-		BoundsText: "one relay, 2 consumers, 2 cache predicates, 3 envelopes, all predicate verdicts symbolic (12 booleans); sequential: all histories of h operations (h=4 quick, 5 thorough) over {put, subscribe, cache, release-cache, close-consumer} with quiescence after each; concurrent: T=2 goroutines (3 thorough) with k=2 operations each, all operation-level interleavings, deliveries compared with the reference at quiescence, happens-before race detection on every execution",
+		BoundsText: "one relay, 2 consumers, 2 cache predicates, 3 envelopes, all predicate verdicts symbolic (12 booleans); sequential: all histories of h operations (h=4 quick, 5 thorough) over {put, subscribe, cache, release-cache, close-consumer} with quiescence after each; concurrent: T=2 goroutines with k=2 operations each (k=3 thorough), all operation-level interleavings, deliveries compared with the reference at quiescence, happens-before race detection on every execution",
 		Outside:    []string{"wire.Receiver's buffering", "preemption inside an operation beyond what the race detector reports (P>0)", "more than 3 goroutines"},
 	})
 	add(CheckDef{
@@ -268,7 +268,7 @@ func checkDefs() map[string]CheckDef {
 			{Pkg: "internal/verifh/c06", Harness: "VerifC06Sequential", Quick: map[string]int{"n": 2}, Thor: map[string]int{"n": 3}, TV: 6},
 			{Pkg: "internal/verifh/c06", Harness: "VerifC06Concurrent", TV: 6, Note: "deterministic run-to-block schedule"},
 			{Pkg: "internal/verifh/c06", Harness: "VerifC06EarlyUpdate", TV: 6, Note: "first update arriving while 1..2 openings are running on the responder (version-1 cache): handled exactly once"},
-			{Pkg: "internal/verifh/c06", Harness: "VerifC06Concurrent", Sched: true, Quick: map[string]int{"P": 0, "D": 1, "race": 1}, Thor: map[string]int{"D": 2}, Note: "delay-bounded schedule exploration: every schedule that deviates from the default choice at up to D scheduling decisions (blocking points), happens-before race detection"},
+			{Pkg: "internal/verifh/c06", Harness: "VerifC06Concurrent", Sched: true, Quick: map[string]int{"P": 0, "D": 1, "race": 1}, Note: "delay-bounded schedule exploration: every schedule that deviates from the default choice at up to D scheduling decisions (blocking points), happens-before race detection"},
 		},
 		Assumptions: append(append([]string{}, clientAssume...),
 			"two real clients (request loops Client.Handle, relays, receivers, channel connections, machines) on one in-harness bus that hands an envelope synchronously to the recipient's relay (per-connection order preserved, no loss)",
